@@ -63,6 +63,10 @@ pub struct GraphEngine {
     published_segments: RwLock<Arc<Vec<Arc<CsrSegment>>>>,
     published_labels: RwLock<Arc<LabelSnapshot>>,
     published_node_labels: RwLock<Arc<Vec<Vec<LabelId>>>>,
+    /// Held (write) while a commit or compaction publishes its several pieces of state, and
+    /// (read) while a snapshot collects them, so that a snapshot never sees a half-published
+    /// transaction.  Always acquired before `idmap`, `pager` and the `published_*` locks.
+    publish_lock: RwLock<()>,
     write_lock: Mutex<()>,
     next_txid: AtomicU64,
     next_segment_id: AtomicU64,
@@ -139,6 +143,7 @@ impl GraphEngine {
             published_segments: RwLock::new(Arc::new(segments)),
             published_labels: RwLock::new(Arc::new(label_snapshot)),
             published_node_labels: RwLock::new(Arc::new(node_labels_snapshot)),
+            publish_lock: RwLock::new(()),
             write_lock: Mutex::new(()),
             next_txid: AtomicU64::new(state.max_txid.saturating_add(1).max(1)),
             next_segment_id: AtomicU64::new(max_seg_id.saturating_add(1).max(1)),
@@ -157,6 +162,10 @@ impl GraphEngine {
     #[inline]
     pub fn wal_path(&self) -> &Path {
         &self.wal_path
+    }
+
+    pub(crate) fn publish_read_guard(&self) -> std::sync::RwLockReadGuard<'_, ()> {
+        self.publish_lock.read().unwrap()
     }
 
     pub(crate) fn get_pager(&self) -> Arc<RwLock<Pager>> {
@@ -190,6 +199,12 @@ impl GraphEngine {
     }
 
     pub fn begin_read(&self) -> Snapshot {
+        let _publish = self.publish_lock.read().unwrap();
+        self.begin_read_published()
+    }
+
+    /// `begin_read` for callers that already hold `publish_lock`.
+    pub(crate) fn begin_read_published(&self) -> Snapshot {
         vread!("published_runs", self.published_runs);
         let runs = self.published_runs.read().unwrap().clone();
         vread!("published_segments", self.published_segments);
@@ -525,7 +540,8 @@ impl GraphEngine {
         }
 
         vpoint!("compact.after_wal");
-        // 4. Update memory state
+        // 4. Update memory state (atomically with respect to snapshot creation)
+        let _publish = self.publish_lock.write().unwrap();
         self.checkpoint_txid.store(up_to_txid, Ordering::SeqCst);
         vpoint!("compact.after_checkpoint_txid");
         self.properties_root.store(current_root, Ordering::SeqCst);
@@ -1191,7 +1207,9 @@ impl<'a> WriteTxn<'a> {
         let has_label_additions = !self.pending_label_additions.is_empty();
         let has_label_removals = !self.pending_label_removals.is_empty();
 
-        // 3. Apply created nodes to IdMap / Node Index
+        // 3. Apply created nodes to IdMap / Node Index.  From here to the end the pieces of
+        // the transaction become visible; snapshots are held off until all of them are.
+        let _publish = self.engine.publish_lock.write().unwrap();
         {
             vlock!("idmap", self.engine.idmap);
             let mut idmap = self.engine.idmap.lock().unwrap();
